@@ -183,11 +183,29 @@ func apiShapes(typ int, thorough, wellFormed bool) []Sh {
 			s := base
 			s.NList = n
 			out = append(out, s)
+			if (typ == 8 || typ == 10) && !wellFormed {
+				// empty-but-present filters in second position
+				s.Form = 3
+				out = append(out, s)
+			}
 		}
 	}
 	for _, nu := range []int{1, 2} {
 		s := base
 		s.NUser = nu
+		out = append(out, s)
+		// user properties with an empty value
+		s.Slen = 0
+		out = append(out, s)
+	}
+	// every string long: property sections of 16 384 bytes and more
+	// (three-byte property length), remaining length in its three-byte form
+	if nProps(typ) >= 2 && typ != 8 {
+		s := base
+		s.Mask, s.Nz, s.Slen = all, 1, 8200
+		if typ == 3 {
+			s.Qos, s.NList = 1, 2
+		}
 		out = append(out, s)
 	}
 	// one string field at a boundary length
@@ -304,6 +322,23 @@ func wireShapes(typ int, thorough bool) []Sh {
 		s := base
 		s.NUser, s.Slen = 2, 40
 		out = append(out, s)
+	}
+	// user properties with an empty value
+	for _, nu := range []int{1, 2} {
+		s := base
+		s.NUser, s.Slen = nu, 0
+		out = append(out, s)
+	}
+	// three-byte property length, in three property orders
+	if nProps(typ) >= 2 && typ != 8 {
+		for _, o := range []int{0, 1, 2} {
+			s := base
+			s.Mask, s.Slen, s.Order = all, 8200, o
+			if typ == 3 {
+				s.Qos, s.NList = 1, 2
+			}
+			out = append(out, s)
+		}
 	}
 	lens := []int{127, 128, 65535}
 	if thorough {
